@@ -3,8 +3,8 @@
 # (the patch is applied to /repo itself and reverted straight afterwards). Writes seeded/RESULTS.txt.
 tier=${1:-quick}; filter=${2:-.}
 cd /verif || exit 2
-out=seeded/RESULTS.txt; : > $out.tmp
-for d in seeded/*/; do
+out=/verif/seeded/RESULTS.txt; : > $out.tmp
+for d in /verif/seeded/*/; do
   id=$(basename $d); echo "$id" | grep -q -E "$filter" || continue
   prop=$(python3 -c "import json;print(json.load(open('$d/meta.json'))['property'])")
   if ! git -C /repo apply --check $d/patch.diff 2>/dev/null; then echo "$id $prop DOES-NOT-APPLY" | tee -a $out.tmp; continue; fi
